@@ -48,6 +48,11 @@ def gen_cases(rng, tier):
       chosen = [(">", s0), (">=", s0)] + rng.sample([x for x in slots if x[1] != s0], max(0, k - 2))
     else:
       chosen = rng.sample(slots, k)
+    if i % 6 == 4:
+      # range starts BELOW zero (the grammar admits them; a definition for r > -1 acts at the r = 0 row of a table):
+      # the whole set shifted down, so that some starts are negative and several may lie at or below 0
+      sh_ = [1.0, 2.5, 0.75][(i // 6) % 3]
+      chosen = [(m_, s_ - sh_) for m_, s_ in chosen]
     chosen = sorted(set(chosen))
     if i % 5 == 2:
       # two ranges with identical marker AND start: which of the two acts where they are selected is
@@ -191,6 +196,8 @@ def run_case(case, ctx):
   shared = len(set(s for _, s, _ in parts)) < n
   if shared:
     ctx.cls("shared_start")
+  if any(s_ < 0 for _, s_, _ in parts):
+    ctx.cls("negative_range_starts")
   if len(set((m, s) for m, s, _ in parts)) < n:
     ctx.cls("duplicate_marker_and_start")
   perms = list(itertools.permutations(range(n)))
